@@ -346,6 +346,13 @@ func (n *normalizer) call(x *ast.CallExpr) {
 			n.expr(sel.X)
 			n.emit(")")
 			return
+		case "AsMapSet":
+			// the generic family's way from its SetDef interface back to the concrete set (the interface{} family's
+			// methods return the concrete set directly): the identity on a set of the library
+			if tv, okT := n.info.Types[sel.X]; okT && tv.Type != nil && strings.Contains(tv.Type.String(), "fpGo") {
+				n.expr(sel.X)
+				return
+			}
 		}
 	}
 	// builtins with a type argument
